@@ -240,8 +240,8 @@ Definition tamper_case := (N * N * list op * list (mut * N))%type.
 Definition check_tamper (c : tamper_case) : N :=
   let '(maxtx, gts, ops, ms) := c in
   let s := run_st maxtx (init_st gts) ops in
-  if negb (N.eqb (Vverify s) 0) then 9
-  else fold_left (fun acc mc => worse acc (check_mut s mc)) ms 0.
+  (* a model whose own chain does not verify is a mismatch, but the oracle is still evaluated on every mutation *)
+  fold_left (fun acc mc => worse acc (check_mut s mc)) ms (if N.eqb (Vverify s) 0 then 0 else 1).
 
 (* ------------------------------------------------------------ concurrent commits *)
 (* (K, max_txs, genesis ts, workspace op lists, commit timestamps by chain position,
